@@ -52,6 +52,10 @@ TxAlphabet ==
   \cup { Tx(<<[t |-> "Send", from |-> "A1", to |-> x, amt |-> 5, denom |-> "nund"]>>) : x \in {"ent", "A3"} }
   \cup { TxFee(<<[t |-> "Send", from |-> "A3", to |-> "A1", amt |-> 1, denom |-> "nund"]>>, [nund |-> 1]) }
   \cup { TxFee(<<[t |-> "Exec", grantee |-> "A3", msgs |-> <<WRec("A3", 1, LastW(1) + 1)>>]>>, [nund |-> 2]) }
+  \* storage purchases by a holder of locked eFUND: two for one WRKChain that are each within the purchasable amount but
+  \* together above it (refused before execution), the same within it, and one for an id that was never registered
+  \cup { TxFee(<<[t |-> "WBuy", owner |-> "A3", id |-> 1, n |-> ab[1]], [t |-> "WBuy", owner |-> "A3", id |-> 1, n |-> ab[2]]>>, [nund |-> 3 * (ab[1] + ab[2])]) : ab \in {<<2, 1>>, <<1, 1>>} }
+  \cup { TxFee(<<[t |-> "WBuy", owner |-> "A3", id |-> 9, n |-> 1]>>, [nund |-> 3]) }
   \* fee allowances: A1 (and A4, who is poor) let A3 pay fees from their accounts; A3's registry transactions then name a granter
   \cup (IF ~WithFeeGrant THEN {} ELSE
        { Tx(<<[t |-> x, granter |-> g, grantee |-> "A3"]>>) : x \in {"FGrant", "FRevoke"}, g \in {"A1", "A4"} }
